@@ -238,6 +238,41 @@ def corr_get_error(ctx: Ctx, drv):
                       out[:8], [int(v) for v in pre["out_nc"]], ok, nontrivial=bool(pre["active"].any()), stratum="diis" if hasd else "plain")
 
 
+def corr_sp2(ctx: Ctx, drv):
+    """real SP2 on diagonal Fock matrices (its action on the spectrum) vs the compiled spectral model, incl. degenerate levels at the Fermi edge"""
+    import torch
+
+    from seqm.seqm_functions.SP2 import SP2
+
+    rng = ctx.rng
+    n_it = 40 if ctx.thorough else 14
+    for it in range(n_it):
+        n = int(rng.integers(3, 10))
+        lams = np.sort(rng.uniform(-30, 10, size=n))
+        nocc = int(rng.integers(1, n))
+        if it % 5 == 0:
+            lams[nocc - 1] = lams[nocc]  # degenerate pair straddling the Fermi level: the rule is never met, exit through the cap
+        eps = float(rng.choice([1e-3, 1e-5, 1e-7, 1e-9]))
+        a = torch.diag(torch.as_tensor(lams)).unsqueeze(0)
+        calls = {"n": 0}
+        orig = torch.Tensor.matmul
+
+        def cnt(self, other):
+            calls["n"] += 1
+            return orig(self, other)
+        torch.Tensor.matmul = cnt
+        try:
+            out = SP2(a, torch.tensor([nocc]), eps, factor=1.0)[0].diagonal().numpy()
+        finally:
+            torch.Tensor.matmul = orig
+        hN, h1 = lams.max(), lams.min()
+        x = (1.0 * hN - lams) / (hN - h1)
+        ans = drv.ask("sp2_live", f2b(eps), nocc, n, *[f2b(v) for v in x])
+        ok = len(ans) == 2 + n and int(ans[0]) == calls["n"] and all(b2f(o) == float(w) for o, w in zip(ans[2:], out))
+        ctx.corr_case("SP2 (spectral action)", {"n": n, "nocc": nocc, "eps": eps, "degenerate": it % 5 == 0}, ans[:3], [calls["n"]] + out[:2].tolist(), ok,
+                      stratum="degenerate" if it % 5 == 0 else "generic")
+
+
 def run(ctx: Ctx):
     from ..translate import gen
     gen.regenerate(ctx, ["Constants"])
@@ -246,6 +281,7 @@ def run(ctx: Ctx):
     try:
         try:
             corr_get_error(ctx, drv)
+            corr_sp2(ctx, drv)
         except Exception:
             import traceback
             ctx.obligation("correspondence adapters C03 ran", False, traceback.format_exc()[-1500:], kind="harness")
